@@ -12,6 +12,7 @@
 //!   P  prog class source
 //!   S  prog sched                 (a run starts; if the process dies the last S names the run)
 //!   R  prog sched class output value detail collections nested_losses pending_seen exposure running_closure_losses only_frame_rooted stale_register_ptrs cache_ptrs
+//!   F  prog sched feature=count;...  (which parts of the model the collections of this run exercised)
 //!   X  prog sched coll signature detail
 //!   D  prog sched coll depth,ip,op  <Coq gcq term>  <Coq observation term>
 #[cfg(vbxq_aelys_lang_verif)]
@@ -102,7 +103,7 @@ mod imp {
                     0 => format!("f0({})", self.sexpr(cls, depth + 1)),
                     1 => format!("f1({})", self.svar()),
                     2 => format!("fs[{}]({})", self.rng.below(2), self.sexpr(cls, depth + 1)),
-                    3 => format!("mk2({})({})({})", self.svar(), self.svar(), self.lit()),
+                    3 => if self.rng.chance(1, 2) { format!("mk2({})({})({})", self.svar(), self.svar(), self.lit()) } else { format!("mk_live({})", self.svar()) },
                     _ => format!("mk_pre({})({})", self.svar(), self.lit()),
                 },
                 12 => format!("w0[1][{}]", self.rng.below(3)),
@@ -121,7 +122,11 @@ mod imp {
                 5 => format!("a0[{}] = {}", self.rng.below(3), self.sexpr(cls, 0)),
                 6 => {
                     let g = self.fresh("g");
-                    format!("let {} = {}", g, self.sexpr(cls, 0))
+                    match self.rng.below(3) {
+                        0 => format!("let {} = Vec[{}, {}]", g, self.sexpr(cls, 1), self.lit()),
+                        1 => format!("let {} = Array[{}, {}]", g, self.lit(), self.sexpr(cls, 1)),
+                        _ => format!("let {} = {}", g, self.sexpr(cls, 0)),
+                    }
                 }
                 7 => format!("println({})", self.sexpr(cls, 1)),
                 8 => {
@@ -137,6 +142,13 @@ mod imp {
                         format!("let {} = mk_counter()\nn0 = n0 + {}() + {}()", t, t, t)
                     }
                 },
+                11 => {
+                    // manually managed buffer: ints only (what a buffer alone references is outside the guarantee)
+                    let b = self.fresh("buf");
+                    let n = 1 + self.rng.below(4);
+                    format!("let {b} = alloc({})\nstore({b}, 0, {})\n{} = {} + {}\nn0 = n0 + load({b}, 0)\nfree({b})",
+                            n + 1, self.rng.below(50), self.svar(), self.svar(), self.lit())
+                }
                 _ => format!("println({}.len())", self.vvar()),
             }
         }
@@ -245,6 +257,9 @@ mod imp {
                 p.push("fn mk_pre(p) {\n    let pre = p + p\n    return fn(x) { return pre + x }\n}".into());
                 p.push("fn mk_counter() {\n    let mut c = 0\n    return fn() {\n        c++\n        return c\n    }\n}".into());
                 p.push("fn mk_acc(v) {\n    return fn(x) {\n        v.push(x)\n        return v.len()\n    }\n}".into());
+                // the closure is called while its captured variable is still an OPEN upvalue (the declaring
+                // frame is running), with allocations in between
+                p.push("fn mk_live(p) {\n    let mut acc = p\n    let add = fn(x) {\n        acc = acc + x\n        return acc\n    }\n    let a = add(\"1\")\n    let b = add(a + \"2\")\n    return b + acc\n}".into());
                 p.push("fn mk2(a) {\n    return fn(b) {\n        return fn(c) { return a + b + c }\n    }\n}".into());
                 // half of the closure programs have no heap constant inside any function
                 let litfree = cls == Class::Closure && self.rng.chance(1, 2);
@@ -281,6 +296,14 @@ mod imp {
             p.push("println(v0.len() + v1.len() + n0)".into());
             p.push("println(v0[v0.len() - 1] + v1[0])".into());
             p.push("println(w0.len() + w0[0].len())".into());
+            if clo {
+                // after the script has finished the HOST calls these globals (VM::call_function_by_name):
+                // closures run on `current_upvalues`, arguments are host-allocated strings
+                p.push("// host-call: f0 hostarg".into());
+                p.push("// host-call: c0".into());
+                p.push("// host-call: acc0 pushed-by-host".into());
+                p.push("// host-call: f1 zz".into());
+            }
             p.join("\n")
         }
     }
@@ -310,6 +333,7 @@ mod imp {
         pub cache_ptrs: u64,          // pointer values in the layout snapshots before collections, summed
         pub running_closure_losses: u64, // collections that freed the closure object a live frame runs (or what only it reaches)
         pub tag: String,
+        pub features: BTreeMap<String, u64>,
         pub exposure: u64, // collections at which some live function had heap pointers among its nested functions' constants
         pub problems: Vec<(u64, String, String)>,
         pub dumps: Vec<(u64, (usize, usize, u8), String, String)>,
@@ -438,6 +462,16 @@ mod imp {
             if nslots2 != pre.nslots {
                 self.problem("slot-count-changed".into(), format!("{} -> {}", pre.nslots, nslots2));
             }
+            // free list after the sweep: distinct indices of empty slots inside the slot vector
+            {
+                let mut seen = BTreeSet::new();
+                for &x in &free2 {
+                    if !seen.insert(x) || x >= nslots2 || post_map.contains_key(&x) {
+                        self.problem("free-list-malformed".into(), format!("entry {} (slots {}, live {})", x, nslots2, post_map.contains_key(&x)));
+                        break;
+                    }
+                }
+            }
             // (b) survivors are untouched, nothing appears
             for o in &post {
                 match pre_map.get(&o.index) {
@@ -486,6 +520,45 @@ mod imp {
             let reach_direct = closure_from(&pre_map, &fn_roots, false);
             if pre.objs.iter().any(|o| edges(o).iter().any(|e| e.2)) {
                 self.exposure += 1;
+            }
+            // ---- which features of the model this collection exercised (generator audit)
+            {
+                let mut hit = |k: String| *self.features.entry(k).or_insert(0) += 1;
+                hit(format!("site:op{}", pre.site.2));
+                hit(format!("frames:{}", pre.frames.len().min(5)));
+                hit(format!("heap-slots:{}", match pre.nslots { 0..=149 => "<150", 150..=199 => "150-199", 200..=299 => "200-299", _ => ">=300" }));
+                if !pre.free.is_empty() { hit("free-list-nonempty-before".into()); }
+                if post.len() < pre.objs.len() { hit("freed-something".into()); }
+                if pre.frames.iter().any(|f| f.closure.is_some()) { hit("root:frame-closure".into()); }
+                if pre.frames.len() > 1 { hit("root:frame-function-of-callee".into()); }
+                if !pre.vmst.globals.is_empty() { hit("root:global-by-name".into()); }
+                if pre.vmst.globals_by_index.iter().any(|v| v.is_some()) { hit("root:global-by-index".into()); }
+                if !pre.vmst.open_upvalues.is_empty() { hit("root:open-upvalue".into()); }
+                if !pre.vmst.current_upvalues.is_empty() { hit("root:current-upvalue(host call)".into()); }
+                if pre.vmst.frames.iter().any(|(b, n, _, _)| (*b..(*b + *n).min(pre.vmst.registers.len())).any(|k| pre.vmst.registers[k].is_some())) {
+                    hit("root:register-in-window".into());
+                }
+                if pre.vmst.stale_register_ptrs > 0 { hit("non-root:pointer-register-above-windows".into()); }
+                if !pre.vmst.globals_cache.is_empty() { hit("non-root:layout-snapshot-pointer".into()); }
+                if frame_only { hit("running-function-or-closure-rooted-by-frame-only".into()); }
+                let mut kinds = BTreeSet::new();
+                let mut labels = BTreeSet::new();
+                for &i in &reach_all {
+                    let o = pre_map[&i];
+                    kinds.insert(o.kind);
+                    for (field, t, _) in edges(o) {
+                        if pre_map.contains_key(&t) { labels.insert(field); }
+                    }
+                    if let Some(f) = &o.func {
+                        if f.nested.iter().any(|n| n.nested.iter().any(|m| !m.own.is_empty() || !m.nested.is_empty())) {
+                            labels.insert("function.nested-const(depth>=2)");
+                        }
+                    }
+                }
+                for k in kinds { hit(format!("reachable-kind:{}", KIND[k as usize])); }
+                for l in labels { hit(format!("edge:{}", l)); }
+                let garbage_kinds: BTreeSet<u8> = pre.objs.iter().filter(|o| !reach_all.contains(&o.index)).map(|o| o.kind).collect();
+                for k in garbage_kinds { hit(format!("garbage-kind:{}", KIND[k as usize])); }
             }
             let mut closure_loss = false;
             for &i in &reach_all {
@@ -598,6 +671,43 @@ mod imp {
         }
     }
 
+    /// run_program + host calls announced by `// host-call: <global> [<string argument>]` lines
+    fn run_with_host_calls(src: &str, opt: u32, gc: (u8, u64), budget: u64) -> Outcome {
+        let hosts: Vec<(String, Option<String>)> = src
+            .lines()
+            .filter_map(|l| l.trim().strip_prefix("// host-call: "))
+            .map(|l| {
+                let mut it = l.splitn(2, ' ');
+                (it.next().unwrap_or("").to_string(), it.next().map(|a| a.to_string()))
+            })
+            .collect();
+        if hosts.is_empty() {
+            return run_program(src, opt, gc, budget, None);
+        }
+        let srcs = src.to_string();
+        verif::sink_install();
+        verif::gc_mode_set(gc.0, gc.1);
+        verif::budget_set(budget);
+        let r = guarded(std::panic::AssertUnwindSafe(move || {
+            let mut vm = aelys_driver::new_vm_with_config(Default::default(), Vec::new())?;
+            let v = aelys_driver::run_with_vm_and_opt(&mut vm, &srcs, "<verif>", opt_level(opt))?;
+            let mut s = vm.value_to_string(v);
+            for (name, arg) in &hosts {
+                let args: Vec<aelys_runtime::Value> = match arg {
+                    Some(a) => vec![aelys_runtime::Value::ptr(vm.alloc_string(a).map_err(aelys_common::error::AelysError::Runtime)?.index())],
+                    None => vec![],
+                };
+                let rv = vm.call_function_by_name(name, &args).map_err(aelys_common::error::AelysError::Runtime)?;
+                s.push_str(&format!("|{}={}", name, vm.value_to_string(rv)));
+            }
+            Ok((v, s))
+        }));
+        let out = verif::sink_take();
+        verif::budget_set(u64::MAX);
+        verif::gc_mode_set(0, 0);
+        classify(r, out)
+    }
+
     pub fn main() {
         quiet_panics();
         let seed = arg_u64("--seed", 0);
@@ -641,13 +751,15 @@ mod imp {
                     let rc2 = rec.clone();
                     verif::pending_fn_set(None);
                     verif::gc_audit_install(Box::new(move |vm, after| rc2.borrow_mut().on_collect(vm, after)));
-                    let r = run_program(src, opt, gc, budget, None);
+                    let r = run_with_host_calls(src, opt, gc, budget);
                     verif::gc_audit_remove();
                     let rec = rec.borrow();
                     let s = format!("{}:{}", gc.0, gc.1);
                     println!("R\t{}\t{}\t{}\t{}\t{}\t{}\t{}\t{}\t{}\t{}\t{}\t{}\t{}\t{}", idx, s, r.class, esc(&r.output), esc(&r.value),
                              esc(&r.detail), rec.collections, rec.nested_losses, rec.pending_seen, rec.exposure, rec.running_closure_losses,
                              rec.only_frame_rooted, rec.stale_register_ptrs, rec.cache_ptrs);
+                    let feats: Vec<String> = rec.features.iter().map(|(k, v)| format!("{}={}", k, v)).collect();
+                    println!("F\t{}\t{}\t{}", idx, s, feats.join(";"));
                     for (c, sig, d) in &rec.problems {
                         println!("X\t{}\t{}\t{}\t{}\t{}", idx, s, c, sig, esc(d));
                     }
